@@ -1,5 +1,7 @@
 import SpdxVerif.Props.C06
+import SpdxVerif.Props.Consts
 #print axioms Spdx.C06.extract_eq
 #print axioms Spdx.C06.extract_nodup
 #print axioms Spdx.C06.extract_mem
 #print axioms Spdx.C06.self_satisfies
+#print axioms Spdx.ConstsPin.reconstructed_literals
